@@ -197,11 +197,10 @@ Section Errors.
     destruct (match names with Some ns => Ok ns | None => match sch with Some s => Ok (map fst s) | None => Raise ValueError end end)
       as [ns|]; [|discriminate].
     destruct (negb (Nat.eqb (length ns) (length (split TAB (rstrip_crlf line))))).
-    - unfold rec_validate. destruct (rec_asserts_ok empty_rec); [|discriminate]. simpl. discriminate.
+    - unfold rec_validate. simpl. discriminate.
     - destruct (parse_fields tbl O sch ln 0 ns (split TAB (rstrip_crlf line)) empty_rec []) as [[r1 e1]|]; [|discriminate].
-      unfold rec_validate. destruct (rec_asserts_ok r1); [|discriminate].
-      unfold process_errors.
-      destruct (e1 ++ rec_validate_errors tbl None ln r1)%list eqn:E; [|discriminate].
+      unfold rec_validate, process_errors.
+      destruct (e1 ++ rec_validate_errors tbl None ln r1 ++ rec_sync_errors ln r1)%list eqn:E; [|discriminate].
       intros H. injection H as <- <-. reflexivity.
   Qed.
 
@@ -214,15 +213,13 @@ Section Errors.
   Proof.
     intros H. unfold from_line in H.
     destruct (negb (Nat.eqb (length (map fst sch)) (length (split TAB (rstrip_crlf line))))) eqn:Hlen.
-    - exfalso. unfold rec_validate in H. destruct (rec_asserts_ok empty_rec); [|discriminate].
-      simpl in H. discriminate.
+    - exfalso. unfold rec_validate in H. simpl in H. discriminate.
     - apply negb_false_iff, Nat.eqb_eq in Hlen. rewrite map_length in Hlen.
       split; [now symmetry|].
       destruct (parse_fields tbl O (Some sch) ln 0 (map fst sch) (split TAB (rstrip_crlf line)) empty_rec [])
         as [[r1 e1]|] eqn:Hp; [|discriminate].
-      unfold rec_validate in H. destruct (rec_asserts_ok r1); [|discriminate].
-      unfold process_errors in H.
-      destruct (e1 ++ rec_validate_errors tbl None ln r1)%list eqn:E; [|discriminate].
+      unfold rec_validate, process_errors in H.
+      destruct (e1 ++ rec_validate_errors tbl None ln r1 ++ rec_sync_errors ln r1)%list eqn:E; [|discriminate].
       apply app_nil_both in E as [E1 _]. subst e1.
       apply parse_fields_errors in Hp. simpl in Hp. symmetry in Hp.
       intros j n t Hn Ht.
@@ -235,3 +232,234 @@ Section Errors.
       exfalso. now apply (parse_field_none_has_errors _ _ _ _ _ _ Hpf).
   Qed.
 End Errors.
+
+(* ---------- the accept direction: if every field is stored, the line is accepted ---------- *)
+Section Accept.
+  Variable tbl : list class_info.
+  Variable O : oracles.
+
+  (* a record with no gaps: slots = the stored columns in order, name map = the same columns *)
+  Definition dense (r : crec) (cs : list ccol) : Prop :=
+    rlist r = map Some cs /\ rdict r = map (fun c => (ckey c, c)) cs /\
+    NoDup (map ckey cs) /\ forall n c, nth_error cs n = Some c -> cidx c = Some (Z.of_nat n).
+
+  Lemma dense_empty : dense empty_rec [].
+  Proof. repeat split; simpl; auto. constructor. intros [|n] c; discriminate. Qed.
+
+  Lemma assoc_map_none (cs : list ccol) k :
+    ~ In k (map ckey cs) -> assoc k (map (fun c => (ckey c, c)) cs) = None.
+  Proof.
+    induction cs as [|c cs IH]; simpl; [reflexivity|]. intros H.
+    destruct (str_eqb k (ckey c)) eqn:E.
+    - apply str_eqb_eq in E. subst. exfalso. apply H. now left.
+    - apply IH. intros Hin. apply H. now right.
+  Qed.
+
+  Lemma dset_map_append (cs : list ccol) c :
+    ~ In (ckey c) (map ckey cs) ->
+    dset (ckey c) c (map (fun x => (ckey x, x)) cs) = map (fun x => (ckey x, x)) (cs ++ [c]).
+  Proof.
+    induction cs as [|c0 cs IH]; simpl; [reflexivity|]. intros H.
+    destruct (str_eqb (ckey c) (ckey c0)) eqn:E.
+    - apply str_eqb_eq in E. exfalso. apply H. left. congruence.
+    - f_equal. apply IH. intros Hin. apply H. now right.
+  Qed.
+
+  Lemma lset_pad_append (l : list (option ccol)) x :
+    lset (length l) x (pad l (S (length l))) = (l ++ [x])%list.
+  Proof.
+    unfold pad. replace (S (length l) - length l)%nat with 1%nat by lia. simpl.
+    induction l as [|y l IH]; simpl; [reflexivity|]. now rewrite IH.
+  Qed.
+
+  Lemma lset_pad_append' (l : list (option ccol)) x n :
+    n = length l -> lset n x (pad l (S n)) = (l ++ [x])%list.
+  Proof. intros ->. apply lset_pad_append. Qed.
+
+  (* storing the next column of a dense record keeps it dense *)
+  Lemma setitem_dense (r : crec) cs c :
+    dense r cs -> cidx c = Some (Z.of_nat (length cs)) -> ~ In (ckey c) (map ckey cs) ->
+    exists r', setitem r (KStr (ckey c)) c = (r', Ok tt) /\ dense r' (cs ++ [c]).
+  Proof.
+    intros (Hl & Hd & Hnd & Hidx) Hc Hnew.
+    destruct c as [k i v]. simpl in Hc, Hnew. subst i.
+    unfold setitem. cbv zeta. cbn [ckey cidx cval with_idx]. rewrite str_eqb_refl. cbv iota beta.
+    cbn [ckey cidx cval with_idx].
+    rewrite Hd, (assoc_map_none cs k Hnew). cbv iota beta. cbn [ckey cidx cval with_idx].
+    destruct (Z.ltb_spec (Z.of_nat (length cs)) 0); [lia|].
+    rewrite Nat2Z.id.
+    assert (Hnth : nth_error (rlist r) (length cs) = None).
+    { apply nth_error_None. rewrite Hl, map_length. lia. }
+    rewrite Hnth. eexists. split; [reflexivity|].
+    split; [|split; [|split]]; cbn [rlist rdict ckey].
+    - rewrite Hl. rewrite (lset_pad_append' (map Some cs) _ (length cs)) by (now rewrite map_length).
+      now rewrite map_app.
+    - apply (dset_map_append cs {| ckey := k; cidx := Some (Z.of_nat (length cs)); cval := v |} Hnew).
+    - rewrite map_app. simpl.
+      clear - Hnd Hnew. induction cs as [|x cs IH]; simpl.
+      + constructor; [tauto|constructor].
+      + inversion Hnd; subst. constructor.
+        * rewrite in_app_iff. intros [H|[H|[]]]; [tauto|]. apply Hnew. left. auto.
+        * apply IH; auto. intros H. apply Hnew. now right.
+    - intros n c' Hn. destruct (Nat.lt_ge_cases n (length cs)).
+      + rewrite nth_error_app1 in Hn by assumption. auto.
+      + rewrite nth_error_app2 in Hn by assumption.
+        destruct (n - length cs)%nat eqn:E; simpl in Hn; [|destruct n0; discriminate].
+        injection Hn as <-. simpl. f_equal. f_equal. lia.
+  Qed.
+
+  Lemma parse_fields_all_stored sch ln : forall names texts i r cs0 errs,
+    dense r cs0 -> i = length cs0 -> length names = length texts ->
+    NoDup (map ckey cs0 ++ names) ->
+    (forall j n t, nth_error names j = Some n -> nth_error texts j = Some t ->
+        exists c, parse_field tbl O sch ln (i + j) n t = (Some c, [])) ->
+    exists r' cs, parse_fields tbl O sch ln i names texts r errs = Ok (r', errs) /\
+                  dense r' (cs0 ++ cs) /\ length cs = length names /\
+                  forall j n t, nth_error names j = Some n -> nth_error texts j = Some t ->
+                    exists c, nth_error cs j = Some c /\ parse_field tbl O sch ln (i + j) n t = (Some c, []).
+  Proof.
+    induction names as [|n ns IH]; intros texts i r cs0 errs Hd Hi Hlen Hnd Hall.
+    - destruct texts; [|discriminate]. exists r, []. simpl. rewrite app_nil_r.
+      split; [reflexivity|split; [exact Hd|split; [reflexivity|]]].
+      intros [|j] ? ? Hx; discriminate.
+    - destruct texts as [|t ts]; [discriminate|]. simpl in Hlen. injection Hlen as Hlen.
+      destruct (Hall 0%nat n t eq_refl eq_refl) as [c Hpf]. rewrite Nat.add_0_r in Hpf.
+      destruct (parse_field_key tbl O _ _ _ _ _ _ _ Hpf) as (Hck & Hci & _).
+      assert (Hnew : ~ In (ckey c) (map ckey cs0)).
+      { rewrite Hck. intros Hin. apply NoDup_remove_2 in Hnd. apply Hnd. apply in_or_app. now left. }
+      destruct (setitem_dense r cs0 c Hd ltac:(rewrite Hci, Hi; reflexivity) Hnew) as [r1 [Hs Hd1]].
+      destruct (IH ts (S i) r1 (cs0 ++ [c])%list (errs ++ [])%list Hd1) as (r' & cs & Hp & Hd' & Hl' & Hall').
+      + rewrite app_length. simpl. lia.
+      + exact Hlen.
+      + rewrite map_app, <- app_assoc. simpl. rewrite Hck. exact Hnd.
+      + intros j n' t' Hn' Ht'. destruct (Hall (S j) n' t' Hn' Ht') as [c' Hc']. exists c'.
+        rewrite <- Hc'. f_equal. lia.
+      + exists r', (c :: cs). cbn [parse_fields]. rewrite Hpf, <- Hck, Hs.
+        rewrite app_nil_r in Hp. rewrite app_nil_r. split; [exact Hp|].
+        rewrite <- app_assoc in Hd'. simpl in Hd'. split; [exact Hd'|]. split; [simpl; lia|].
+        intros [|j] n' t' Hn' Ht'; simpl in *.
+        * injection Hn' as <-. injection Ht' as <-. exists c. rewrite Nat.add_0_r, Hck. auto.
+        * destruct (Hall' j n' t' Hn' Ht') as [c' [H1 H2]]. exists c'. split; auto.
+          rewrite <- H2. f_equal. lia.
+  Qed.
+End Accept.
+
+Section AcceptLine.
+  Variable tbl : list class_info.
+  Variable O : oracles.
+
+  Lemma parse_field_stored_validates sch ln i n t c :
+    parse_field tbl O sch ln i n t = (Some c, []) -> col_validate tbl None None c = [].
+  Proof.
+    unfold parse_field.
+    destruct (match sch with Some s => if scheme_truthy s then scheme_class s n else None | None => None end) as [sc|].
+    - destruct (cls_build O (resolve_or_plain tbl sc) t) as [v|]; [|discriminate].
+      match goal with |- context [col_validate tbl sch ln ?cc] => destruct (col_validate tbl sch ln cc) eqn:E end;
+        [|discriminate].
+      intros H. injection H as <-.
+      unfold col_validate in *. apply app_nil_both in E as [E1 E2]. apply app_nil_both in E2 as [E2 _].
+      simpl in *.
+      destruct (cls_value_invalid _ v); [discriminate|].
+      destruct (cls_text_has_sep _ v); [discriminate|]. reflexivity.
+    - match goal with |- context [col_validate tbl sch ln ?cc] => destruct (col_validate tbl sch ln cc) eqn:E end;
+        [|discriminate].
+      intros H. injection H as <-.
+      unfold col_validate in *. apply app_nil_both in E as [E1 E2]. apply app_nil_both in E2 as [E2 _].
+      simpl in *.
+      destruct (cls_value_invalid _ _); [discriminate|].
+      destruct (cls_text_has_sep _ _); [discriminate|]. reflexivity.
+  Qed.
+
+  Lemma assoc_map_self (cs : list ccol) c :
+    NoDup (map ckey cs) -> In c cs -> assoc (ckey c) (map (fun x => (ckey x, x)) cs) = Some c.
+  Proof.
+    induction cs as [|x cs IH]; simpl; [tauto|]. intros Hnd [->|Hin].
+    - now rewrite str_eqb_refl.
+    - inversion Hnd; subst. destruct (str_eqb (ckey c) (ckey x)) eqn:E.
+      + apply str_eqb_eq in E. exfalso. apply H1. rewrite <- E. now apply in_map.
+      + auto.
+  Qed.
+
+  Lemma flat_map_all_nil {X Y} (f : X -> list Y) l : (forall x, In x l -> f x = []) -> flat_map f l = [].
+  Proof. induction l as [|x l IH]; simpl; intros H; [reflexivity|]. rewrite H by now left. apply IH. auto. Qed.
+
+  Lemma combine_seq_in {X} (l : list X) : forall st p, In p (List.combine (seq st (length l)) l) ->
+    exists n, fst p = (st + n)%nat /\ nth_error l n = Some (snd p).
+  Proof.
+    induction l as [|y l IH]; intros st p H; simpl in H; [tauto|].
+    destruct H as [<-|H].
+    - exists 0%nat. simpl. split; [lia|reflexivity].
+    - destruct (IH (S st) p H) as [n [H1 H2]]. exists (S n). simpl. split; [lia|exact H2].
+  Qed.
+
+  Lemma dense_no_sync_errors r cs ln : dense r cs -> rec_sync_errors ln r = [].
+  Proof.
+    intros (Hl & Hd & Hnd & Hidx). unfold rec_sync_errors.
+    assert (Hnone : existsb is_none (rlist r) = false).
+    { rewrite Hl. apply not_true_is_false. intros H. apply existsb_exists in H as [o [Hin Ho]].
+      apply in_map_iff in Hin as [c [<- _]]. discriminate. }
+    rewrite Hnone.
+    assert (Hlen : Nat.eqb (length (rdict r)) (length (rlist r)) = true).
+    { rewrite Hl, Hd, !map_length. apply Nat.eqb_refl. }
+    rewrite Hlen. simpl.
+    assert (Hex : existsb (fun o => match o with
+                               | Some c => match assoc (ckey c) (rdict r) with
+                                           | Some c' => negb (match cidx c, cidx c' with
+                                                              | Some i, Some j => Z.eqb i j
+                                                              | None, None => true
+                                                              | _, _ => false end)
+                                           | None => true
+                                           end
+                               | None => false
+                               end) (rlist r) = false).
+    { apply not_true_is_false. intros H. apply existsb_exists in H as [o [Hin Ho]].
+      rewrite Hl in Hin. apply in_map_iff in Hin as [c [<- Hc]].
+      rewrite Hd, (assoc_map_self cs c Hnd Hc) in Ho.
+      destruct (cidx c); [rewrite Z.eqb_refl in Ho|]; discriminate. }
+    rewrite Hex. simpl.
+    apply flat_map_all_nil. intros p Hp.
+    destruct (combine_seq_in _ _ _ Hp) as [n [Hn Hs]]. simpl in Hn.
+    rewrite Hl, nth_error_map in Hs.
+    destruct (nth_error cs n) as [c|] eqn:Hc; [|discriminate]. simpl in Hs.
+    injection Hs as Hs. rewrite <- Hs. rewrite (Hidx _ _ Hc), Hn, Z.eqb_refl. reflexivity.
+  Qed.
+
+  (* a line whose every field is stored is accepted in Strict mode, and the
+     record holds exactly those columns, in order *)
+  Theorem from_line_accepts (s : scheme) ln line :
+    NoDup (map fst s) ->
+    let texts := split TAB (rstrip_crlf line) in
+    length texts = length s ->
+    (forall j n t, nth_error (map fst s) j = Some n -> nth_error texts j = Some t ->
+        exists c, parse_field tbl O (Some s) ln j n t = (Some c, [])) ->
+    exists r cs, from_line tbl O Strict None (Some s) ln line = Ok (r, []) /\ dense r cs /\
+                 length cs = length s /\
+                 forall j n t, nth_error (map fst s) j = Some n -> nth_error texts j = Some t ->
+                   exists c, nth_error cs j = Some c /\ parse_field tbl O (Some s) ln j n t = (Some c, []).
+  Proof.
+    intros Hnd texts Hlen Hall. unfold from_line. fold texts.
+    rewrite map_length, Hlen, Nat.eqb_refl. simpl.
+    destruct (parse_fields_all_stored tbl O (Some s) ln (map fst s) texts 0 empty_rec [] [] dense_empty eq_refl)
+      as (r & cs & Hp & Hd & Hl & Hst).
+    - now rewrite map_length.
+    - exact Hnd.
+    - exact Hall.
+    - rewrite Hp. simpl in Hd.
+      assert (Hv : rec_validate_errors tbl None ln r = []).
+      { unfold rec_validate_errors. simpl. destruct Hd as (Hrl & _). rewrite Hrl.
+        apply flat_map_all_nil. intros o Hin. apply in_map_iff in Hin as [c [<- Hc]].
+        destruct (In_nth_error _ _ Hc) as [j Hj].
+        assert (Hjn : exists n, nth_error (map fst s) j = Some n).
+        { assert (j < length cs)%nat by (apply nth_error_Some; congruence).
+          rewrite Hl in H. destruct (nth_error (map fst s) j) eqn:E; [eauto|]. apply nth_error_None in E. lia. }
+        destruct Hjn as [n Hn].
+        assert (Hjt : exists t, nth_error texts j = Some t).
+        { assert (j < length texts)%nat by (rewrite Hlen, <- (map_length fst); apply nth_error_Some; congruence).
+          destruct (nth_error texts j) eqn:E; [eauto|]. apply nth_error_None in E. lia. }
+        destruct Hjt as [t Ht].
+        destruct (Hst j n t Hn Ht) as [c' [Hc' Hpf]]. rewrite Hj in Hc'. injection Hc' as <-.
+        eapply parse_field_stored_validates; eauto. }
+      unfold rec_validate. rewrite Hv, (dense_no_sync_errors r cs ln Hd). simpl.
+      exists r, cs. rewrite map_length in Hl. auto.
+  Qed.
+End AcceptLine.
